@@ -508,10 +508,22 @@ func engCodec(e *Env) {
 		f func([]byte) ([]byte, string, error)
 	}
 	decs := []dec{
-		{0, func(b []byte) ([]byte, string, error) { r, v, err := verifhook.DecodeUvarintAscending(b); return r, fmt.Sprint(v), err }},
-		{1, func(b []byte) ([]byte, string, error) { r, v, err := verifhook.DecodeUvarintDescending(b); return r, fmt.Sprint(v), err }},
-		{2, func(b []byte) ([]byte, string, error) { r, v, err := verifhook.DecodeVarintAscending(b); return r, zint(v), err }},
-		{3, func(b []byte) ([]byte, string, error) { r, v, err := verifhook.DecodeVarintDescending(b); return r, zint(v), err }},
+		{0, func(b []byte) ([]byte, string, error) {
+			r, v, err := verifhook.DecodeUvarintAscending(b)
+			return r, fmt.Sprint(v), err
+		}},
+		{1, func(b []byte) ([]byte, string, error) {
+			r, v, err := verifhook.DecodeUvarintDescending(b)
+			return r, fmt.Sprint(v), err
+		}},
+		{2, func(b []byte) ([]byte, string, error) {
+			r, v, err := verifhook.DecodeVarintAscending(b)
+			return r, zint(v), err
+		}},
+		{3, func(b []byte) ([]byte, string, error) {
+			r, v, err := verifhook.DecodeVarintDescending(b)
+			return r, zint(v), err
+		}},
 	}
 	for i := 0; i < nMal; i++ {
 		// mostly-valid encodings, truncated / extended / with a mutated tag
